@@ -61,6 +61,20 @@ declarations:
 - decl: int pass2(S2 *s)
 - decl: std::string getname()
 """,
+    "mpi_custom": """library: libf
+cxx_header: f.hpp
+typemap:
+- type: MPI_Comm
+  fields:
+    cpp_if: ifdef HAVE_MPI
+declarations:
+- decl: void bcast(MPI_Comm comm)
+""",
+    "mpi_plain": """library: libg
+cxx_header: g.hpp
+declarations:
+- decl: void send(MPI_Comm comm, int n)
+""",
     "python": """library: libe
 cxx_header: e.hpp
 options:
@@ -78,7 +92,9 @@ declarations:
 
 def args_for(fname, outdir):
     a = argparse.Namespace()
-    a.cmake = a.cfiles = a.ffiles = ""
+    a.cmake = ""
+    a.cfiles = os.path.join(outdir, "cfiles.lst")
+    a.ffiles = os.path.join(outdir, "ffiles.lst")
     a.filename = [fname]
     a.outdir = a.logdir = outdir
     a.outdir_c_fortran = a.outdir_lua = a.outdir_python = a.outdir_yaml = ""
@@ -105,6 +121,13 @@ def run_seq(names, base):
             res["%d:%s" % (i, n)] = dict((x, hashlib.sha256(open(os.path.join(d, x), "rb").read().replace(
                 d.encode(), b"<DIR>")).hexdigest()[:16])
                 for x in sorted(os.listdir(d)) if not x.endswith((".yaml", ".log", ".json")))
+            # C15: the lists written for --cfiles / --ffiles name exactly the files of THIS run
+            for lst, exts in (("cfiles.lst", (".c", ".cpp", ".cxx")), ("ffiles.lst", (".f", ".f90", ".F", ".F90"))):
+                listed = sorted(open(os.path.join(d, lst)).read().split())
+                written = sorted(os.path.join(d, x) for x in os.listdir(d) if x.endswith(exts))
+                if listed != written:
+                    res["%d:%s" % (i, n)]["<%s>" % lst] = "lists %s, written %s" % (
+                        [x.replace(d, "<DIR>").replace(base, "<OTHER>") for x in listed], [os.path.basename(x) for x in written])
         except BaseException as e:
             res["%d:%s" % (i, n)] = {"<exception>": "%s: %s" % (type(e).__name__, str(e)[:80])}
     return res
